@@ -47,6 +47,13 @@ def case(draw):
     kind = draw(st.sampled_from(["over", "over", "over", "variable", "variable", "fit", "fit", "collide"]))
     decls: List[M.Decl] = []
     fnames = draw(S.unique_names(CS.can_field, 5, 5))
+    if draw(st.integers(0, 3)) == 0:
+        # names that look like padding: a generator must not treat them differently
+        fl = draw(st.lists(st.sampled_from(["reserved", "rsvd0", "rsvd1", "padding", "unused", "spare", "dummy"]), min_size=1, max_size=3, unique=True))
+        pos = draw(st.permutations(list(range(5))))
+        for nm, i in zip(fl, pos):
+            if nm not in fnames:
+                fnames[i] = nm
     info: Dict[str, Any] = {"kind": kind}
     if kind == "collide":
         # an over-long message in which a sibling field is spelled like an unrolled array element (x_1 next to
